@@ -107,6 +107,21 @@ theorem c01_id_type_sensitive (cfg : Cfg α) (p : α) (h : cfg.reqId = .str "7")
     isMatch cfg (In.resp (.int 7) p) = false := by
   simp [isMatch, h]
 
+/-- Requests issued one after the other (or side by side on separate connections) do not see each
+other: without a shared cancellation token each observation of a sequence is the observation of
+that request alone on its own history — whatever ids, payloads or leftovers its siblings had.  (The
+model says so by construction; the `siblings` correspondence suite is what checks it of the code:
+consecutive calls in one process with equal / twin ids and strays bearing the siblings' ids.) -/
+theorem c01_siblings_independent (R : Int → Bool) (s0 : Nat)
+    (reqs : List (Cfg α × Nat × List (Nat × In α))) :
+    (runSeq R none s0 reqs).map (·.2) = reqs.map (fun r => run R (withToken r.1 none 0) r.2.2) := by
+  induction reqs generalizing s0 with
+  | nil => simp [runSeq]
+  | cons r rest ih =>
+    obtain ⟨cfg, gap, ev⟩ := r
+    simp only [runSeq, List.map_cons, ih]
+    simp [withToken]
+
 /-! Non-vacuity: a concrete history meeting the hypotheses of `c01_complete` (a same-id server
 request and a foreign response precede the answer) and one meeting `c01_timeout_complete`. -/
 def exCfg : Cfg Nat :=
